@@ -58,12 +58,19 @@ theorem fieldCheck_sound (T : Table) (ok : Kind → Bool) (f : FieldSpec) (h : V
   · rcases hcm : f.cmp with _ | cm
     · simp [hh, hcm] at hc
     · cases hm <;> cases cm <;> simp only [hh, hcm, Bool.and_eq_true] at hc
+      -- plain/plain, plain/content
       · simpa [fieldLawful] using hok hc
       · have := noIdent_sound T _ _ hc.1 hk
         simp [fieldLawful, this, hok hc.2]
+      -- content/plain, content/content
       · have := noIdent_sound T _ _ hc.1 hk
         simp [fieldLawful, this, hok hc.2]
       · simp [fieldLawful, hok hc]
+      -- contentPart/plain, contentPart/content
+      · have := noIdent_sound T _ _ hc.1 hk
+        simp [fieldLawful, this, hok hc.2]
+      · simp [fieldLawful, hok hc]
+      -- orderedItems
       · have hi := noIdent_sound T _ _ hc.1.1 hk
         have hd := noDict_sound T _ _ hc.1.2 hk
         rw [fieldLawful_ordered _ _ _ hd]
@@ -72,6 +79,17 @@ theorem fieldCheck_sound (T : Table) (ok : Kind → Bool) (f : FieldSpec) (h : V
         have hd := noDict_sound T _ _ hc.1.2 hk
         rw [fieldLawful_ordered _ _ _ hd]
         simp [hi, hok hc.2]
+      -- itemSet
+      · have hi := noIdent_sound T _ _ hc.1 hk
+        by_cases hd : ∃ k, h = .dict k
+        · obtain ⟨k, rfl⟩ := hd; rfl
+        · rw [fieldLawful_itemSet _ _ _ (fun k hk' => hd ⟨k, hk'⟩)]
+          simp [hi, hok hc.2]
+      · have hi := noIdent_sound T _ _ hc.1 hk
+        by_cases hd : ∃ k, h = .dict k
+        · obtain ⟨k, rfl⟩ := hd; rfl
+        · rw [fieldLawful_itemSet _ _ _ (fun k hk' => hd ⟨k, hk'⟩)]
+          simp [hi, hok hc.2]
 
 theorem kind_sound_core (T : Table) : ∀ v : Val,
     (∀ n k, kindOK T n k = true → HasKind T k v → lawful T v = true) ∧
@@ -84,6 +102,7 @@ theorem kind_sound_core (T : Table) : ∀ v : Val,
   | frame i c => exact ⟨fun _ _ _ _ => rfl, fun _ _ _ _ => rfl, fun _ fs _ _ => by cases fs <;> rfl⟩
   | dict kvs => exact ⟨fun _ _ _ _ => rfl, fun _ _ _ _ => rfl, fun _ fs _ _ => by cases fs <;> rfl⟩
   | nil => exact ⟨fun _ _ _ _ => rfl, fun _ _ _ _ => rfl, fun _ fs _ _ => by cases fs <;> rfl⟩
+  | dset kvs => exact ⟨fun _ _ _ _ => rfl, fun _ _ _ _ => rfl, fun _ fs _ _ => by cases fs <;> rfl⟩
   | err w => exact ⟨fun _ _ _ _ => rfl, fun _ _ _ _ => rfl, fun _ fs _ _ => by cases fs <;> rfl⟩
   | cons h t ihh iht =>
     refine ⟨?_, ?_, ?_⟩
